@@ -3,11 +3,13 @@
 namespace qsx {
 void register_c06();
 void register_solve();
+void register_c05();
 void register_all_properties() {
   static bool done = false;
   if (done) return;
   done = true;
   register_c06();
   register_solve();
+  register_c05();
 }
 }
